@@ -663,6 +663,10 @@ func (r *Runner) cmd(ctx context.Context, cm syntax.Command) {
 			}
 
 			for _, field := range items {
+				if r.stop(ctx) {
+					// e.g. a return or exit in the body
+					break
+				}
 				r.setVarString(name, field)
 				trace.stringf("for %s in", y.Name.Value)
 				if inToken {
